@@ -81,11 +81,29 @@ func (prop) Generate(rng *sim.Rng, tier string, runIndex int) driver.Scenario {
 		sc.Degen = -1
 		groups := rng.Range(3, 12)
 		itLive := false
+		// clear(m) at any moment, also while a same-size grow is under way, now and
+		// then followed straight away by enough entries to make the table double
+		maybeClear := func(base int) {
+			if rng.Intn(50) != 0 {
+				return
+			}
+			sc.Ops = append(sc.Ops, Op{K: "clear"})
+			if rng.Bool() {
+				for i, m := 0, rng.Range(60, 300); i < m; i++ {
+					sc.Ops = append(sc.Ops, Op{K: "set", Key: base + 24 + i})
+				}
+				for i := 0; i < 6; i++ {
+					sc.Ops = append(sc.Ops, Op{K: "get", Key: base + 24 + rng.Intn(60)})
+				}
+				sc.Ops = append(sc.Ops, Op{K: "len"})
+			}
+		}
 		for g := 0; g < groups; g++ {
 			base := g * 24
 			k := rng.Range(12, 24)
 			for i := 0; i < k; i++ {
 				sc.Ops = append(sc.Ops, Op{K: "set", Key: base + i})
+				maybeClear(base)
 				if rng.Intn(4) == 0 {
 					// look-ups of keys of this and earlier groups while grows are in progress
 					sc.Ops = append(sc.Ops, Op{K: []string{"get", "get1"}[rng.Intn(2)], Key: rng.Intn(base + 24)})
@@ -103,6 +121,7 @@ func (prop) Generate(rng *sim.Rng, tier string, runIndex int) driver.Scenario {
 				if rng.Intn(8) != 0 {
 					sc.Ops = append(sc.Ops, Op{K: "del", Key: base + i})
 				}
+				maybeClear(base)
 				if rng.Intn(4) == 0 {
 					sc.Ops = append(sc.Ops, Op{K: []string{"get", "get1"}[rng.Intn(2)], Key: rng.Intn(base + 24)})
 				}
